@@ -13,7 +13,7 @@ PROPS = {
         "gen": ["EncTags.lean", "EncBuiltins.lean"],
         "streams": ["enc"],
         "required_theorems": ["varint_roundtrip", "uvarint_roundtrip", "varintConv_roundtrip", "object_roundtrip",
-                              "object_roundtrip_exact", "negative_zero_roundtrip", "bytecode_roundtrip",
+                              "object_roundtrip_default_fuel", "object_roundtrip_exact", "negative_zero_roundtrip", "bytecode_roundtrip", "bytecode_roundtrip_default_fuel",
                               "positions_survive", "norm_only_representation", "normCF_spec", "norm_idem",
                               "decode_twice", "fix_rebinds", "tags_distinct", "field_numbers", "C04_partial"],
         "trusted": [
@@ -24,7 +24,7 @@ PROPS = {
         "assumptions": [
             "behavioural half: C04_full is stated over an abstract `run`; C04_partial proves it from the hypothesis that `run` does not observe what norm/fixObjects change (VM model not yet available); the `enc` stream checks original vs decoded vs re-decoded runs (value / error name+message / stack trace) on the implementation",
             "nil and empty slices/maps are identified in the model (except SyncMap.Value, Instructions, SourceMap, Constants, where the encoder itself distinguishes them)",
-            "lengths fit Go's int (< 2^63); the decoder model has enough fuel (need o <= fuel)",
+            "lengths fit Go's int (< 2^63); fuel: theorems hold for every fuel >= need o, and the default fuel 3|input|+16 is proved sufficient (object_roundtrip_default_fuel, bytecode_roundtrip_default_fuel)",
             "ugo.AttrModuleName (\"__module_name__\") is a hand-copied constant of the model (tied by the module cases of stream `enc`)",
         ],
         "partial": [
